@@ -459,7 +459,6 @@ htp_status_t htp_connp_REQ_BODY_CHUNKED_DATA(htp_connp_t *connp) {
     connp->in_current_read_offset += bytes_to_consume;
     connp->in_current_consume_offset += bytes_to_consume;
     connp->in_stream_offset += bytes_to_consume;
-    connp->in_tx->request_message_len += bytes_to_consume;
     connp->in_chunked_length -= bytes_to_consume;
 
     if (connp->in_chunked_length == 0) {
@@ -554,7 +553,6 @@ htp_status_t htp_connp_REQ_BODY_IDENTITY(htp_connp_t *connp) {
     connp->in_current_read_offset += bytes_to_consume;
     connp->in_current_consume_offset += bytes_to_consume;
     connp->in_stream_offset += bytes_to_consume;
-    connp->in_tx->request_message_len += bytes_to_consume;
     connp->in_body_data_left -= bytes_to_consume;
 
     if (connp->in_body_data_left == 0) {
